@@ -57,7 +57,11 @@ CmdSMove(s, now, a) ==
 \* random commands: see the note at HRANDFIELD in KsHash.tla
 CmdSPop(s, now, a, h) ==
   IF Len(a) < 2 \/ Len(a) > 3 THEN One(RErr, s, "spop.arity")
-  ELSE IF WrongFor(s, a[2], "set") THEN One(RWrong, s, "spop.wrongtype")
+  ELSE IF WrongFor(s, a[2], "set") THEN
+       \* wrong-type key AND invalid count: the reference does not fix the error precedence
+       (IF Len(a) = 3 /\ (~ParseSmall(a[3]).ok \/ ParseSmall(a[3]).n < 0)
+        THEN Two(One(RWrong, s, "spop.wrongtype"), One(RErr, s, "spop.wrongtype.badcount"))
+        ELSE One(RWrong, s, "spop.wrongtype"))
   ELSE LET S == SetOf(s, a[2]) k == a[2] IN
     IF Len(a) = 2 THEN
       (IF S = {} THEN One(RNil, s, "spop.missing")
@@ -79,7 +83,11 @@ CmdSPop(s, now, a, h) ==
 
 CmdSRandMember(s, now, a, h) ==
   IF Len(a) < 2 \/ Len(a) > 3 THEN One(RErr, s, "srandmember.arity")
-  ELSE IF WrongFor(s, a[2], "set") THEN One(RWrong, s, "srandmember.wrongtype")
+  ELSE IF WrongFor(s, a[2], "set") THEN
+       \* wrong-type key AND non-integer count: the reference does not fix the error precedence
+       (IF Len(a) = 3 /\ ~ParseSmall(a[3]).ok
+        THEN Two(One(RWrong, s, "srandmember.wrongtype"), One(RErr, s, "srandmember.wrongtype.notint"))
+        ELSE One(RWrong, s, "srandmember.wrongtype"))
   ELSE LET S == SetOf(s, a[2]) ms == SortBytes(S) IN
     IF Len(a) = 2 THEN
       (IF S = {} THEN One(RNil, s, "srandmember.missing")
